@@ -247,6 +247,27 @@ def _run_system(args):
             d = ofro(xn - xc) / nx if (xn is not None and np.all(np.isfinite(xc)) and np.all(np.isfinite(xn))) else float("inf")
             ev.append({"tid": tid, "ev": "Pair", "kind": "scale", "cls": cname, "c_lg": lg(c),
                        "diff_lg": lg(d), "bound_lg": max(lg(tol), FLOOR) + lg(cond) + 256})
+    # a REUSED solver whose matrix argument was updated in place between two solves (same array object)
+    S_ = lib().solver
+    for prec in ("none", "left_lu"):
+        try:
+            sol = S_.QGMRESSolver(tol=1e-10, preconditioner=prec)
+            Aq = q_from_float(A)
+            bq = q_from_float(b)
+            sol.solve(Aq, bq)
+            Aq *= 2.0
+            Aq[0, 0] = Aq[0, 0] + np.quaternion(float(np.max(np.abs(A))), 0.0, 0.0, 0.0)     # same object, new contents
+            x2, _ = sol.solve(Aq, bq)
+            xf, _ = S_.QGMRESSolver(tol=1e-10, preconditioner=prec).solve(Aq.copy(), bq.copy())
+            x2f, xff = q_to_float(np.asarray(x2)), q_to_float(np.asarray(xf))
+            A2 = q_to_float(Aq)
+            c2 = float(osvals(A2)[0] / max(osvals(A2)[-1], 1e-300))
+            d = ofro(x2f - xff) / max(ofro(xff), 1e-300) if np.all(np.isfinite(x2f)) and np.all(np.isfinite(xff)) else float("inf")
+            tid += 1
+            ev.append({"tid": tid, "ev": "Pair", "kind": "reuse", "cls": cname, "prec": prec,
+                       "diff_lg": lg(d), "bound_lg": lg(1e-10) + max(0, lg(c2)) + 256})
+        except Exception:
+            raise
     # per-cycle optimality (unpreconditioned, tightest tolerance): iterate of cap c is cycle c+1
     xprev = np.zeros_like(b)
     for c in range(0, n):
